@@ -7,14 +7,19 @@ EXTENDS LiquidGen, LiquidAst
 
 X == V("x")
 Y == V("y")
-MCData == {<< <<<<"x", Hash(<< <<"a", IntV(2)>>, <<"s", Str("p")>> >>)>>, <<"y", vy>>, <<"arr", Arr(<<IntV(1), IntV(2)>>)>>>>, <<>>, <<>>, <<>> >>
+\* "o" is an ordinal drop: every access to one of its items returns the number of
+\* accesses so far (as a cursor would), so evaluating an expression once more or
+\* once less changes the output (C03: the async twins evaluate as often as the sync code)
+MCData == {<< <<<<"x", Hash(<< <<"a", IntV(2)>>, <<"s", Str("p")>> >>)>>, <<"y", vy>>, <<"arr", Arr(<<IntV(1), IntV(2)>>)>>,
+                 <<"o", [t |-> "odrop"]>>>>, <<>>, <<>>, <<>> >>
              : vy \in {Str("p"), IntV(2), Nil}}
 MCCfgs == {[Cfg("+", TRUE, FALSE, "default") EXCEPT !.shopify = TRUE]}
 MCPartials == << <<"p", <<NText("[p:"), NOut(P(V("v"))), NOut(P(V("p"))), NText("]")>>>>, <<"s", <<NText("[s]")>>>> >>
 
 Prims == {S("p"), SQ("p", "\""), SQ("", "'"), TStr(<<S("a"), P(Y), S("b")>>, "\""), TStr(<<P(VP("x", "s"))>>, "'"),
           TStr(<<S("p")>>, "'"), I(1), I(2), I(-1), I(0), X, Y, VP("x", "a"), VP("x", "s"), Path(<<Key("x"), KeyB("s")>>),
-          V("arr"), Path(<<Key("arr"), Idx(0)>>), RangeE(I(1), I(2)), RangeE(I(1), Y), NilE, TrueE, FalseE, EmptyE, BlankE}
+          V("arr"), Path(<<Key("arr"), Idx(0)>>), RangeE(I(1), I(2)), RangeE(I(1), Y), NilE, TrueE, FalseE, EmptyE, BlankE,
+          VP("o", "n"), VP("o", "odd")}
 
 Site(p) ==
   {NOut(P(p)), Echo(P(p)), Assign("z", P(p)),
@@ -27,6 +32,8 @@ Site(p) ==
    If(Cmp("==", p, Y), <<NText("T")>>, <<>>, NoElse), If(Cmp("<", p, I(2)), <<NText("T")>>, <<>>, NoElse),
    If(Contains(p, S("p")), <<NText("T")>>, <<>>, NoElse), If(In(p, V("arr")), <<NText("T")>>, <<>>, NoElse),
    If(And(Not(p), Or(p, Y)), <<NText("T")>>, <<>>, NoElse), Unless(p, <<NText("U")>>, <<>>, NoElse),
+   If(FalseE, <<>>, <<Elif(Cmp("==", p, I(1)), <<NText("E1")>>), Elif(Cmp("==", p, I(2)), <<NText("E2")>>), Elif(p, <<NText("E3")>>)>>, Else(<<NText("F")>>)),
+   Unless(TrueE, <<>>, <<Elif(Cmp("==", p, I(1)), <<NText("U1")>>), Elif(Cmp("==", p, I(2)), <<NText("U2")>>)>>, Else(<<NText("UF")>>)),
    Case(p, <<When(<<p, I(2)>>, <<NText("W")>>)>>, Else(<<NText("E")>>)), Case(Y, <<When(<<S("q"), p>>, <<NText("W")>>)>>, NoElse),
    For("i", p, ESrc(p), NoOpt, NoOpt, FALSE, <<NOut(P(V("i")))>>, Else(<<NText("none")>>)),
    For("i", V("arr"), "arr", Opt(p), NoOpt, FALSE, <<NOut(P(V("i")))>>, NoElse),
